@@ -43,8 +43,8 @@ pub enum Packing {
     /// PDUs without any update ride along: an empty short-form fast-path PDU (00 02) after the first bitmap PDU in
     /// the same record, an empty long-form one (00 80 03) in front of the third
     EmptyPdusInside,
-    /// one PDU per record, but the second bitmap PDU is 20 kB long (two-byte length form with bit 14 set; it spans two
-    /// TLS records)
+    /// one PDU per record, but the second bitmap PDU carries exactly 16384 bytes behind its 3-byte header (two-byte length
+    /// form with bit 14 set; it spans two TLS records)
     BigSecondPdu,
     /// after the first bitmap PDU the server re-activates the session: deactivate-all + demand-active in ONE record,
     /// then its four finalization PDUs and the second bitmap PDU in ONE record, then the third bitmap PDU. The receive thread
@@ -59,6 +59,9 @@ pub enum End {
     CloseNotify,
     AbruptClose,
     UndecodableRdpKind,
+    /// a well-formed send-data indication on the MCS user channel (joined, but not served by this client): the read
+    /// reports it as unusable, which ends the thread like any undecodable PDU
+    DataOnTheUserChannel,
     UndecodableIoKind,
     /// a header-only TPKT frame (03 00 00 04): no X.224 header can be decoded from its empty payload
     UndecodableEmptyFrame,
@@ -86,7 +89,7 @@ pub fn scripts() -> Vec<Script> {
     let mut v = vec![];
     for packing in [Packing::OnePerRecord, Packing::TwoThenOne, Packing::ThreeInOne, Packing::PduAcrossTwoRecords, Packing::RecordAcrossTwoSegments, Packing::OnePerRecordWithPauses, Packing::EmptyPdusInside, Packing::BigSecondPdu, Packing::ReactivationPacked] {
         v.push(Script { packing, end: End::None, end_after: 3, preloaded: false, nla: false, end_in_last_record: false, after_end: false });
-        for end in [End::DisconnectUltimatum, End::CloseNotify, End::AbruptClose, End::UndecodableRdpKind, End::UndecodableIoKind, End::UndecodableEmptyFrame] {
+        for end in [End::DisconnectUltimatum, End::CloseNotify, End::AbruptClose, End::UndecodableRdpKind, End::UndecodableIoKind, End::UndecodableEmptyFrame, End::DataOnTheUserChannel] {
             for end_after in 0..=3 {
                 v.push(Script { packing, end, end_after, preloaded: false, nla: false, end_in_last_record: false, after_end: false });
             }
@@ -140,8 +143,17 @@ fn bitmap_pdu(seq: u16) -> Vec<u8> {
 }
 
 fn big_bitmap_pdu(seq: u16) -> Vec<u8> {
-    let r = Rect { left: seq, top: 0, right: seq + 99, bottom: 99, width: 100, height: 100, bpp: 16, flags: 0, data: (0..20000u32).map(|i| (i * 7 + seq as u32) as u8).collect() };
-    framing::fastpath(0, &fastpath::updates_payload(&[Update::Bitmap(vec![r])]), true)
+    // sized so that what follows the 3-byte fast-path header is exactly 16384 bytes (a power of two, and a multiple of
+    // every plausible internal block size): 8192 pixels of 16 bpp in a 128 x 64 rectangle, plus the update headers
+    let mut n = 16384usize;
+    loop {
+        let r = Rect { left: seq, top: 0, right: seq + 127, bottom: 63, width: 128, height: 64, bpp: 16, flags: 0, data: (0..n as u32).map(|i| (i * 7 + seq as u32) as u8).collect() };
+        let f = framing::fastpath(0, &fastpath::updates_payload(&[Update::Bitmap(vec![r])]), true);
+        if f.len() == 16384 + 3 {
+            return f;
+        }
+        n = n + 16384 + 3 - f.len();
+    }
 }
 
 // ------------------------------------------------------------------ per-execution context
@@ -558,6 +570,7 @@ fn build_actions(script: &Script, peer: &mut TlsPeer, st: &mut State) -> Vec<Env
     let end_plain: Option<Vec<u8>> = match script.end {
         End::DisconnectUltimatum => Some(framing::tpkt(&framing::x224_dt(&mcs::disconnect_provider_ultimatum(3)))),
         End::UndecodableRdpKind => Some(framing::tpkt(&framing::x224_dt(&[0x00, 0x00, 0x00]))),
+        End::DataOnTheUserChannel => Some(framing::tpkt(&framing::x224_dt(&mcs::send_data_indication(1002, 1007, &[0x11, 0x22, 0x33, 0x44])))),
         End::UndecodableIoKind => Some(framing::tpkt(&framing::x224_dt(&[26 << 2]))),
         End::UndecodableEmptyFrame => Some(vec![0x03, 0x00, 0x00, 0x04]),
         _ => None,
@@ -667,6 +680,13 @@ fn build_actions(script: &Script, peer: &mut TlsPeer, st: &mut State) -> Vec<Env
     match script.end {
         End::None => {}
         End::DisconnectUltimatum => {
+            let f = end_plain.clone().unwrap();
+            let rec = peer.encrypt(&f);
+            raw_off += rec.len();
+            st.end_offset = Some(raw_off);
+            actions.push(EnvAction::Push(rec));
+        }
+        End::DataOnTheUserChannel => {
             let f = end_plain.clone().unwrap();
             let rec = peer.encrypt(&f);
             raw_off += rec.len();
